@@ -1114,7 +1114,6 @@ func addC19Mutants() {
 	)
 }
 
-
 // onlyForEmptyList: every static call site of f is control-dependent on len(x)==0 for a slice x that is provably
 // non-empty there (x is a parameter and every caller, up to 3 levels, passes a value already tested len!=0).
 func onlyForEmptyList(c *Ctx, f *ssa.Function) (bool, string) {
